@@ -166,7 +166,12 @@ class MethodMixin:
         return self.isinst(a[0], a[1], n)
 
     def obj_isinstance(self, v, t):
-        raise Unsupported('isinstance on opaque object')
+        """class membership of an opaque object: an uninterpreted predicate per class"""
+        if isinstance(t, tuple):
+            return self.lor(*[self.obj_isinstance(v, x) for x in t])
+        if t is type(None):
+            return False
+        return self.ufun(f'isinst_{t.__name__}', self.zs.zsort(api.Obj), z3.BoolSort())(v.term)
 
     def b_int(self, a, k, n, f):
         v = self.unwrap(a[0], n) if a else 0
@@ -478,7 +483,7 @@ class MethodMixin:
             argsorts, ret = self.cur_contract.opaque[name]
             zs = self.zs
             f = self.ufun(f'obj_{name}', zs.zsort(api.Obj), *[zs.zsort(s_) for s_ in argsorts], zs.zsort(ret))
-            a2 = [zs.lift(self.unwrap_term(a), zs.zsort(s_)) for a, s_ in zip(args, argsorts)]
+            a2 = [zs.lift(self.unwrap_term(a), zs.zsort(s_)) for a, s_ in zip(args, argsorts)]      # extra arguments beyond the declared ones are ignored
             self.path.trace.append((name, tuple(a2)))
             self.assumptions.add(f'opaque method {name} is a pure function of the object and its arguments')
             r = f(recv.term, *a2)
